@@ -76,6 +76,24 @@ func (c *ctComp) Gen(r *rand.Rand, tier string) []string {
 		}
 		return ctPath(r, 4)
 	}
+	if r.Intn(4) == 0 {
+		// sibling leaves (and sibling subtrees) below a parent 3..7 elements deep: a walk hands its visitor one
+		// path per leaf, and visitors keep them (client.CacheClient.Leaves does) — the slices must not share
+		// a backing array (seeded change c09_seed8 dropped the per-child copy: append reuses spare capacity
+		// exactly at these depths)
+		base := []string{"t"}
+		for d := 2 + r.Intn(5); d > 0; d-- {
+			base = append(base, ctAlphabet[r.Intn(len(ctAlphabet))])
+		}
+		for k := 2 + r.Intn(3); k > 0; k-- {
+			q := append(cloneStrs(base), fmt.Sprintf("s%d", k))
+			if r.Intn(3) == 0 {
+				q = append(q, "x", fmt.Sprintf("y%d", r.Intn(2)))
+			}
+			added = append(added, q)
+			seq = append(seq, fmt.Sprintf("add %s %d", encPath(q), 1+r.Intn(9)))
+		}
+	}
 	for i := 0; i < n; i++ {
 		switch x := r.Intn(100); {
 		case x < 34:
@@ -194,19 +212,35 @@ func (c *ctComp) Run(args []string) string {
 			return nil
 		})
 		return sortedBracket(out)
-	case "walk":
-		var out []string
-		t.Walk(func(p []string, l *ctree.Leaf, v interface{}) error {
-			out = append(out, kv(p, v))
+	case "walk", "walks":
+		// the visitor keeps the path slices it is handed (as client.CacheClient.Leaves and the package's own
+		// tests do) and they are rendered only after the walk has returned: what was reported for an earlier
+		// leaf must still be that leaf's path then
+		var paths [][]string
+		var vals []interface{}
+		var during []string
+		f := func(p []string, l *ctree.Leaf, v interface{}) error {
+			paths, vals = append(paths, p), append(vals, v)
+			during = append(during, kv(p, v))
 			return nil
-		})
-		return sortedBracket(out)
-	case "walks":
+		}
+		if args[0] == "walk" {
+			t.Walk(f)
+		} else {
+			t.WalkSorted(f)
+		}
 		var out []string
-		t.WalkSorted(func(p []string, l *ctree.Leaf, v interface{}) error {
-			out = append(out, kv(p, v))
-			return nil
-		})
+		for i, p := range paths {
+			out = append(out, kv(p, vals[i]))
+		}
+		for i := range out {
+			if out[i] != during[i] {
+				return "retained-path-changed:" + during[i] + "->" + out[i]
+			}
+		}
+		if args[0] == "walk" {
+			return sortedBracket(out)
+		}
 		return bracket(out)
 	case "del":
 		var out []string
